@@ -391,6 +391,18 @@ func c06(r *ev.Run, replay string) {
 			return // embedding does not depend on the builder history (C02/C03 cover histories)
 		}
 		c06Tree(r, n, h, ret, shapeCase{Model: n.String(), Hist: h, Tree: n})
+		if n.K == "packet_out" && h == (bind.Hist{}) {
+			// a conntrack action that receives its nested actions after it was attached: the
+			// packet-out must size and embed it as it is at encoding time
+			for _, a := range n.L["Actions"] {
+				if a.K == "nx_ct" && len(a.L["Actions"]) > 0 {
+					lg := bind.Hist{LateGrow: true}
+					r.Add("late_growth_histories", 1)
+					c06Tree(r, n, lg, ret, shapeCase{Model: n.String(), Hist: lg, Tree: n})
+					break
+				}
+			}
+		}
 	})
 	// switch-originated kinds the library can also encode (replies, stats records) are sized through the round-trip corpus
 	var nsw int64
